@@ -18,12 +18,21 @@ CLAIMS = {
  "C04": dict(engine="csim", level="exploration", design="4 C04",
    text="Every vote and proposal an honest validator signs is judged at the moment of signing against the ledger of valid votes delivered to it: precommit needs a polka of that round, prevote/proposal against an earlier precommit needs a later polka for something else, commit needs +2/3 precommits of one round.",
    note="The ledger counts delivered (a superset of processed) votes, so it only errs toward permitting. The monitor starts over at each restart (what survives a crash is C07's subject)."),
+ "C05": dict(engine="execsim", level="exploration", design="4 C05",
+   text="One generated chain (transfers, contract creations and calls incl. precompiles, key-value transactions, invalid, replayed and empty-block cases) is executed by 3-5 real full nodes (Angine + EVM application over simulated disks), each with its own process history (clean restarts between any two blocks) and its own number of signature-verifier goroutines; after every block all replicas must hold the reference replica's application hash and receipts hash and answer a fixed query set (nonces, receipts, keys, key-update histories, contract existence) identically; a replica that refuses or panics on a block is a violation.",
+   note="The verifier's goroutines run as real goroutines to quiescence (their interleaving is not driven from the tape). Blocks are built and signed by the harness; the consensus path is C01/C02's subject. Crash histories are C06's subject and not generated here."),
+ "C06": dict(engine="execsim", level="fault_enumeration", design="4 C06",
+   text="For a generated chain a scout replica records the durable writes issued while one block is committed (block store, intermediate state, trie nodes, application last-block record, receipts, key-value history, state); for EVERY write k a fresh replica is crashed immediately before k, restarted (the real RecoverFromCrash runs), in a third of the cases crashed again during recovery, and must then: come up, have block store, state and application agree on one height and on the uncrashed run's hashes, still serve every earlier block unchanged, execute the rest of the chain with the uncrashed run's hashes, and end with identical nonces, receipts, key values and key-update histories (exactly-once application).",
+   note="Exhaustive over the single crash points of the enumerated block on the executor path (the calls fast sync makes; finalizeCommit issues the same writes in the same order, plus WAL and signer writes which C07/C03 cover); block kinds and the target block are sampled. Process-death durability. Known finding F9 is reported per crash class."),
  "C07": dict(engine="csim", level="fault_enumeration", design="4 C07",
    text="In seeded multi-round heights (Byzantine noise, small WAL head limits that force rotation inside a height, repeated crashes) validators are killed at quiescent points, at armed write points and with the log tail cut at a seeded byte offset inside the last record; after OnStart the restored round state (votes, lock, proposal, parts, step) must equal the pre-crash digest for an intact log and lie between the digests before and after the last record for a torn one; restart must not panic, the signature ledger must show no contradiction, and the fair suffix must still decide.",
    note="Crash points are sampled per run (seeded), not enumerated exhaustively: evidence reports distinct (restart, truncation) cases reached. Findings F2 and F6 (and uncompensated F1) are reported as KNOWN-FINDING under keys that name their precondition, so other replay defects under other preconditions are still reported."),
  "C08": dict(engine="csim", level="exploration", design="4 C08",
    text="While real multi-validator heights run under the usual schedule noise, a seeded adversarial peer sends structure-aware hostile messages of every consensus message type (one boundary or hostile value per message: negative, zero, maximal and off-by-one indices, heights and rounds, nil fields, foreign or missing signatures, impossible lengths, malformed bit arrays) and raw byte strings (empty, truncated, bit-flipped, random, absurd length prefix) on all four consensus channels, at whatever step the receiver is in. A panic on any goroutine the node owns, an abort of the process (out of memory), a consensus-state digest changed by an invalid message, or a node that no longer commits in the fair suffix are violations; a panic inside Receive is counted, the peer is dropped and reconnected as production does.",
    note="Covers the consensus reactor's Receive and everything behind it on the consensus routine. Block-sync, mempool and peer-exchange reactors and the real MConnection byte path are not in this engine (not claimed here). Inputs are sampled from a fixed catalogue of 60 mutation kinds x seeded parameters."),
+ "C09": dict(engine="execsim", level="exploration", design="4 C09",
+   text="Adversarial transaction streams (byte strings, empty transactions, signed transactions to every precompile incl. the governance precompile with payload lengths around its parser offsets, malformed key-value payloads, unsigned, stale, future and replayed transactions, contract creations and calls) are executed by real full nodes; the node must survive every block, account nonces and receipts must match a reference nonce model transaction by transaction (valid exactly at the sender's current nonce, nonce +1 per valid transaction, replays invalid), key values must be the last valid write, and a twin replica executing the chain without the certainly-invalid transactions must end in the same application hash.",
+   note="Input space (byte strings, bytecode) is sampled from a fixed catalogue; simulation adds node survival, replay across blocks, the differential twin and replica histories. Transactions whose validity depends on gas accounting are judged only differentially."),
  "C12": dict(engine="csim", level="exploration", design="4 C12",
    text="After every adversarial prefix the fair suffix stops faults, restarts crashed nodes and delivers every pending message and timeout in canonical order; every honest node must commit the next height within a generous bound on simulated time. A panic or gcmn.Exit on any node goroutine, and a node blocked while holding its state lock, are reported at any time.",
    note="Gossip routines are replaced by the harness's fair delivery (including the peer-majority claims queryMaj23Routine would send); the bound is 3N+5 rounds of growing timeouts plus per-height catch-up allowance."),
@@ -39,9 +48,6 @@ CLAIMS = {
 }
 
 PLANNED = {
- "C05": "not claimed yet: execsim (replicas x process histories x verifier schedules over the real EVM app) not built in this revision",
- "C06": "not claimed yet: crashsim (exhaustive single-crash enumeration over the commit path with the real EVM app) not built in this revision",
- "C09": "not claimed yet: execsim adversarial transaction generator not built in this revision",
  "C11": "not claimed yet: triesim not built in this revision",
  "C13": "not claimed yet: syncsim not built in this revision",
  "C14": "not claimed yet: admin workload of execsim not built in this revision",
@@ -76,6 +82,8 @@ def main():
         dict(name="instr", path="/verif/instr", serves_properties=sorted(CLAIMS), kind_free_text="go/ast instrumenter applied to the scratch copy: go statements -> simhook.Go (level 0), lock sites -> simhook.LockF (level 1)"),
         dict(name="csim", path="/verif/sims/csim", serves_properties=[p for p in sorted(CLAIMS) if "csim" in CLAIMS[p]["engine"]], kind_free_text="message-level consensus simulator: real ConsensusState/Reactor.Receive/WAL/signer/store per validator, Byzantine puppets, run-to-quiescence in a synctest bubble"),
         dict(name="signersim", path="/verif/sims/signersim", serves_properties=["C03"], kind_free_text="crash-point and write-error enumeration over the real signer file"),
+        dict(name="fullnode", path="/verif/sims/fullnode", serves_properties=["C05", "C06", "C09"], kind_free_text="assembles a complete node (real Angine + real EVM application) over simulated disks without sockets"),
+        dict(name="execsim", path="/verif/sims/execsim", serves_properties=["C05", "C06", "C09"], kind_free_text="one harness-built chain executed by many real full nodes with different process histories; crash-point enumeration over the commit path"),
         dict(name="partsim", path="/verif/sims/partsim", serves_properties=["C17"], kind_free_text="part-set sender/receiver with reordering, duplicating, mutating network; Merkle proof mutations"),
         dict(name="valsetsim", path="/verif/sims/valsetsim", serves_properties=["C16"], kind_free_text="validator-set histories replayed on differently-batched / persisted replicas"),
     ]
